@@ -22,6 +22,7 @@ type GenOpts struct {
 	OddIDs                 bool // negative / implicit / sparse field ids
 	HexIDs                 bool // hex/octal spelled field ids
 	ExpDoubles             bool // doubles with exponents
+	HardDoubles            bool // doubles that need 17 significant digits, subnormals, the largest finite value
 	StructKeys             bool // struct-typed map keys
 	Recursion              bool // recursive types through optional fields / containers
 	MaxDepth               int  // container nesting (default 3)
@@ -35,6 +36,7 @@ type GenOpts struct {
 	OnlyWireable           bool // restrict to shapes the value generator and codecs handle (always true today)
 	HardLiterals           bool // string literals with both quotes, backslashes, '&', '<', '#', unicode
 	GoEscapes              bool // restrict backslash sequences in literals to escapes Go accepts (C06)
+	ComposedLiterals       bool // literals concatenated from hostile fragments (C17): quotes after backslashes, HTML entities, '#', ';'
 	StructConsts           bool // constants / defaults of struct type
 	EmptyDefs              bool // empty structs / services / enums
 	UnusedIncl             bool // includes nothing refers to
@@ -50,6 +52,7 @@ type GenOpts struct {
 	PkgClash               bool // two included files whose go namespaces end in the same word (import alias needed)
 	TypedefOnlyStructs     bool // typedefs only of struct-likes (for use_type_alias=false, which breaks typedef'd scalars)
 	MoreServices           bool // 2-3 services per file
+	ArgDefaults            bool // default values on function arguments
 	TypedefEnumSel         bool // enum values selected through a typedef (Typedef.VALUE): accepted by the analyser, rejected by the Go backend
 }
 
@@ -174,11 +177,39 @@ func (g *gen) literalText(ann bool) string {
 		pool = append(append([]string{}, simple...), hard...)
 	}
 	s := pool[g.rng.Intn(len(pool))]
+	if g.o.ComposedLiterals && g.rng.Chance(1, 2) {
+		s = g.composedLiteral()
+	}
 	if g.o.GoEscapes {
 		// keep only backslash sequences Go accepts: \t \n \\ ; drop anything else
 		s = strings.ReplaceAll(s, `\\n`, `\n`)
 	}
 	return s
+}
+
+// composedLiteral concatenates fragments so that every neighbouring pair of hostile characters occurs:
+// a quote after a backslash pair, an over-escaped quote (backslash kept in the text, only writable inside
+// the other quote kind), HTML entities, '#', ';', '&'. The text never contains over-escaped quotes of
+// both kinds (no source text can produce that).
+func (g *gen) composedLiteral() string {
+	atoms := []string{"a", "Z", "0", " ", `"`, `'`, "&", "<", ">", "#", ";", "\\\\", "\\t", "\\n", "&amp;", "&#34;", "&quot;", "&lt;", "&#39;", "##", "%", "=", ",", "(", ")", "é", "/", "//", "/*", "*/", "##34;", "#OUTQUOTES", "&#x26;"}
+	over := ""
+	if g.rng.Chance(1, 4) {
+		over = []string{"\\\"", "\\'"}[g.rng.Intn(2)]
+	}
+	n := g.rng.Range(1, 6)
+	var sb strings.Builder
+	for i := 0; i < n; i++ {
+		if over != "" && g.rng.Chance(1, 3) {
+			sb.WriteString(over)
+			continue
+		}
+		sb.WriteString(atoms[g.rng.Intn(len(atoms))])
+	}
+	if strings.HasSuffix(sb.String(), "\\") {
+		sb.WriteString("z") // the grammar reads a backslash before the closing quote as an escape: such a text cannot be written
+	}
+	return sb.String()
 }
 
 // ---------- type deck ----------
@@ -550,6 +581,13 @@ func (g *gen) genService(f *File) *Def {
 			fn.Ret = g.genType(f, g.o.MaxDepth)
 		}
 		fn.Args = g.genFields(f, nil, "args", g.rng.Intn(5))
+		if g.o.ArgDefaults {
+			for _, a := range fn.Args {
+				if g.rng.Chance(1, 4) {
+					a.Default = g.genValue(f, a.Type, 1, nil)
+				}
+			}
+		}
 		if !fn.Oneway && g.o.Exceptions {
 			fn.Throws = g.genFields(f, nil, "throws", g.rng.Intn(3))
 		}
@@ -647,6 +685,9 @@ func (g *gen) genValue(f *File, t *Type, depth int, exclude *Def) *Value {
 		pool := []string{"1.5", "-0.25", "0.0", "3.14159", "100.0", ".5", "-.125", "+2.5", "123456.789", "0.000001", "1234567890.5"}
 		if g.o.ExpDoubles {
 			pool = append(pool, "1e3", "1.5e10", "2.5E-3", "-1e-7", "6.02e23", "1E0", ".5e1", "9.9e+2")
+		}
+		if g.o.HardDoubles {
+			pool = append(pool, "0.30000000000000004", "1e-20", "4.9e-324", "1.7976931348623157e308", "123456789.12345679", "-2.2250738585072014e-308", "9007199254740993.0", "0.1", "1e22", "1e23", "-9223372036854775808.0", "9223372036854775807.0", "18446744073709551616.0")
 		}
 		txt := pool[g.rng.Intn(len(pool))]
 		d, _ := strconv.ParseFloat(txt, 64)
